@@ -35,7 +35,7 @@ static struct vf_e vf_buf[VF_MAXN + 4];       /* [0] canary, [1..n] array, [n+1]
 static int vf_cmp(const void * a, const void * b, void * p)
 {
     (void)p;
-    return (int)((const struct vf_e *)a)->b[0] - (int)((const struct vf_e *)b)->b[0];
+    return vf_signmag(((const struct vf_e *)a)->b[0] > ((const struct vf_e *)b)->b[0], ((const struct vf_e *)a)->b[0] < ((const struct vf_e *)b)->b[0]);
 }
 
 static const cstl_sort_algorithm_t vf_algos[5] = {
